@@ -96,6 +96,7 @@ type Obligation struct {
 	AllRes    map[string]string `json:"all_results,omitempty"`
 	SiteKey   string   `json:"-"`
 	ReplayConfirmed bool `json:"replay_confirmed,omitempty"`
+	Retried   bool     `json:"retried_alone_with_three_times_the_limit,omitempty"`
 	ClauseRef *Clause `json:"-"`
 	shortTimeout int
 	fv        *FnV
